@@ -378,6 +378,6 @@ SUBCHECKS = {"machine": stateful.replay(Interp)}
 
 def run(ctx):
     quick = ctx.tier == "quick"
-    total = 2400 if quick else 48000
+    total = 2400 if quick else 32000
     steps = 40 if quick else 80
     stateful.run_machine(ctx, "machine", Interp, INIT, RULES, total // ctx.nshards, steps)
